@@ -32,7 +32,7 @@
 7. Binding demonstration: a corrupted release record must be rejected by LocksTrace at that record, a
    corrupted lock class must be flagged as an unknown acquisition context.
 """
-import json, os, re, time
+import json, os, re, subprocess, time
 from concurrent.futures import ThreadPoolExecutor
 import vlib
 
@@ -110,6 +110,43 @@ def unknown_edges(out_path):
     return seen
 
 
+def idle_notify_unbounded(ctx):
+    """9. The same design for EVERY channel capacity and burst size: an inductive invariant of IdleNotify
+    (spec/IdleNotifyInd.tla) is discharged by Apalache (SMT) - initial states satisfy it, every step preserves it, it
+    implies NoStuck / NoLostWakeup - and two guards make sure the proof is not vacuous (the blocking-send variant
+    violates Safety; the invariant has models far beyond TLC's bounds)."""
+    from concurrent.futures import ThreadPoolExecutor
+    d = ctx.specdir()
+    runs = [("base", "CInit", "Init", "IndInv", 0, "OK"),
+            ("step", "CInit", "IndInit", "IndInv", 1, "OK"),
+            ("implies", "CInit", "IndInit", "Safety", 0, "OK"),
+            ("guard-blocking", "CInitBlocking", "IndInit", "Safety", 0, "ERROR (12)"),
+            ("guard-nonempty", "CInit", "IndInit", "NoStateBeyondTlcBounds", 0, "ERROR (12)")]
+
+    def one(r):
+        name, cinit, init, inv, length, want = r
+        out = os.path.join(ctx.scratch, "apa-" + name)
+        e = dict(os.environ)
+        e.update(vlib.GOENV)
+        e["JAVA_TOOL_OPTIONS"] = "-Djava.io.tmpdir=" + os.path.join(ctx.scratch, "jtmp")
+        os.makedirs(os.path.join(ctx.scratch, "jtmp"), exist_ok=True)
+        cmd = ["timeout", "600", "apalache-mc", "check", "--out-dir=" + out, "--cinit=" + cinit, "--init=" + init,
+               "--inv=" + inv, "--length=%d" % length, "IdleNotifyInd.tla"]
+        p = subprocess.run(cmd, cwd=d, env=e, stdout=subprocess.PIPE, stderr=subprocess.STDOUT, text=True)
+        m = re.search(r"EXITCODE: (.*)", p.stdout)
+        got = m.group(1).strip() if m else "none (rc=%d)" % p.returncode
+        return name, got, want, " ".join(cmd[2:]), p.stdout[-1500:]
+
+    with ThreadPoolExecutor(max_workers=5) as ex:
+        res = list(ex.map(one, runs))
+    for name, got, want, cmd, tail in res:
+        if got != want:
+            # (an obligation that fails says that the INVARIANT is not inductive or too weak - a defect of the proof, not of
+            # go-imap; a guard that passes says the proof would be vacuous)
+            raise vlib.Infra("Apalache obligation %s: expected %s, got %s: %s\n%s" % (name, want, got, cmd, tail))
+    return {"apalache": {name: got for name, got, _, _, _ in res}}
+
+
 def idle_notify(ctx):
     """8. Waiting on the wake-up channel of an idling session (spec/IdleNotify.tla): TLC checks the design (every command
     completes whatever the idling client does; no lost wake-up) and that the blocking-send variant gets stuck (guard);
@@ -160,6 +197,7 @@ def run(ctx):
     quick = ctx.tier == "quick"
     t0 = time.time()
     idle = idle_notify(ctx)
+    idle.update(idle_notify_unbounded(ctx))
     note = selftest(ctx)
     plain, rbin, ovs = build_all(ctx)
     t_build = time.time() - t0
